@@ -214,6 +214,19 @@ func runC11(r *Run, p *Prog) {
 	// N9: the remote error for an error frame is built without crashing: the Error value handed to the typed-error
 	// conversion has both members set on every path (the conversion asserts the dynamic type of Parameters)
 	siblingRules(r, p, "C12", []string{"X3"}, "N9")
+	// N10: error discipline of the client side of the package (errdisc.go)
+	r.Guard("N10", func() {
+		ro := DiscoverRoles(p)
+		svc := serviceSideFuncs(p, ro)
+		var fns []*ssa.Function
+		for _, f := range p.FuncsOf(pkgVarlink) {
+			if !svc[f] {
+				fns = append(fns, f)
+			}
+		}
+		errorDiscipline(r, p, ro.T, "N10", fns)
+		r.Floor("N10", 5)
+	})
 	ro := DiscoverRoles(p)
 	T := ro.T
 	cm := buildClientModel(p, ro)
